@@ -593,4 +593,47 @@ theorem C04_reload_roots (T : Table) (xs : List J) :
 example (T : Table) : ∃ g, normDoc T (.dict [(s%"__type__", .str s%"map"), (s%"name", .str s%"x")]) = .dict g ∧
     g.map Prod.fst = [s%"__type__", s%"name"] := C04_reload_keys T _
 
+/-- the differences C01 allows between a value and its reloaded form -/
+def AllowedDiff (v w : J) : Prop :=
+  w = v ∨ (∃ s, v = .str s ∧ w = .str (upper s)) ∨ (∃ n, v = .int n ∧ w = .str (intStr n)) ∨ (∃ x, v = .flt x ∧ w = .str x)
+
+theorem normV_allowed (attr : Str) (p : CellProps) (v : J) : AllowedDiff v (normV attr p v) := by
+  unfold AllowedDiff
+  cases v with
+  | str s =>
+    simp only [normV]
+    split
+    · exact .inr (.inl ⟨s, rfl, rfl⟩)
+    · split
+      · exact .inr (.inl ⟨s, rfl, rfl⟩)
+      · exact .inl rfl
+  | int n =>
+    simp only [normV]
+    split
+    · exact .inr (.inr (.inl ⟨n, rfl, rfl⟩))
+    · exact .inl rfl
+  | flt x =>
+    simp only [normV]
+    split
+    · exact .inr (.inr (.inr ⟨x, rfl, rfl⟩))
+    · exact .inl rfl
+  | null | bool _ | list _ | tup _ | dict _ => exact .inl rfl
+
+/-- **C04_reload_value_allowed** — at EVERY keyword of every object type, under every schema table, the value a reload
+gives back for a simple value is the value itself, its upper-cased form (strings only), or its decimal string (numbers
+only): the model of `loads(dumps(d))` never differs from `d` in any other way at a simple keyword. -/
+theorem C04_reload_value_allowed (T : Table) (ty : Option Str) (attr : Str) (v : J) : AllowedDiff v (normAt T ty attr v) := by
+  unfold normAt
+  split
+  · exact .inl rfl
+  · split
+    · exact .inl rfl
+    · exact normV_allowed attr _ v
+
+/-- booleans, nulls and tuples are never touched by a reload -/
+example (T : Table) (ty : Option Str) (attr : Str) (b : Bool) : normAt T ty attr (.bool b) = .bool b := by
+  rcases C04_reload_value_allowed T ty attr (.bool b) with h | ⟨s, h, _⟩ | ⟨n, h, _⟩ | ⟨x, h, _⟩
+  · exact h
+  all_goals cases h
+
 end Mappy.Printer
